@@ -25,6 +25,9 @@ extern int g_N;   // defined in the contract file (ghost)
 int isxdigit(int c) { return (c >= '0' && c <= '9') || (c >= 'a' && c <= 'f') || (c >= 'A' && c <= 'F'); }
 int tolower(int c) { return (c >= 'A' && c <= 'Z') ? c + 32 : c; }
 const char *strerror(int) { return ""; }
+// libc strncmp, real semantics (not used on the pinned tree; part of the libc model so that code using it is decided, not refused)
+int verif_strncmp(const char *a, const char *b, size_t n) { for (size_t k = 0; k < n; k++) { if (a[k] != b[k]) { return((unsigned char)a[k] < (unsigned char)b[k] ? -1 : 1); } if (a[k] == 0) { return(0); } } return(0); }
+#define strncmp verif_strncmp
 //@slice src/unc_ctype.cpp fn unc_fix_ctype
 //@slice src/unc_ctype.cpp fn unc_tolower
 //@slice src/unc_ctype.cpp fn unc_isxdigit
